@@ -120,7 +120,7 @@ def run(ctx):
         ctx.case("regression", name)
         if not ok:
             ctx.fail("regression", "repaired defect %s is back: %s" % (name, detail), {"type": "defect", "name": name})
-    n_graphs = 260 if quick else 20000
+    n_graphs = 600 if quick else 20000
     ctx.bound("up to %d generated rGFAs of 2-4 chromosomes, 1..all of them not chain-shaped (kinds %s), the others chains (backbone 2-7, "
               "0-3 ears, tips); every permutation of the chromosomes as --chromosome_order (%s), alternately --by-chrom / complete file; "
               "plus one proper subset order per graph" % (n_graphs, ", ".join(ol.BAD_KINDS), "<= 6 sampled when 4 chromosomes" if quick else "all 24 for 4"))
@@ -133,7 +133,8 @@ def run(ctx):
         if cl is None or not cl[1]:
             continue
         for c in cl[1]:
-            seen_kinds[kinds[c]] = seen_kinds.get(kinds[c], 0) + 1
+            k = "single block (whole-backbone ear)" if kinds[c] == "chain" else kinds[c]
+            seen_kinds[k] = seen_kinds.get(k, 0) + 1
         perms = [list(p) for p in itertools.permutations(names)]
         if quick and len(perms) > 6:
             perms = rng.sample(perms, 6)
